@@ -78,12 +78,17 @@ def _pos_kind(kind):
         return {'r1': r('N', Q_HI, False), 'r2': r('C', Q_LO, True)}
     if kind == 9:   # lower-quality mate says N -> the fragment's call is C
         return {'r1': r('N', Q_LO, False), 'r2': r('C', Q_HI, True)}
-    if kind == 10:  # single-end G (a third base; lets three-way ties occur)
+    if kind == 10:  # single-end G (a third base; lets three-way ties and 2/1/1 pluralities occur)
         return {'r1': r('G', Q_HI, False), 'r2': None}
+    if kind == 11:  # single-end C called at phred 0: still a call (only N and mate ties are "no call")
+        return {'r1': r('C', 0, False), 'r2': None}
+    if kind == 12:  # R1 says A at phred 0, R2 says C at phred 10: the higher-quality mate (C) is the call
+        return {'r1': r('A', 0, False), 'r2': r('C', Q_LO, True)}
     raise ValueError(kind)
 
 
-POS_KIND_NAMES = ['away', 'seA', 'seC', 'seN', 'agreeA', 'A30/C10', 'A10/C30', 'A30/C30', 'N30/C10', 'N10/C30', 'seG']
+POS_KIND_NAMES = ['away', 'seA', 'seC', 'seN', 'agreeA', 'A30/C10', 'A10/C30', 'A30/C30', 'N30/C10', 'N10/C30', 'seG', 'seC@q0',
+                  'A0/C10']
 
 
 # ---- window-level letters --------------------------------------------------------------------------
@@ -359,7 +364,7 @@ def _mates_disagree(f):
 # ---- bounds / shards ------------------------------------------------------------------------------
 def bounds(tier):
     if tier == 'quick':
-        return {'pos_kinds': POS_KIND_NAMES[:8], 'pos_max_fragments': 5, 'pos_extra': {'kinds': POS_KIND_NAMES, 'max_fragments': 3},
+        return {'pos_kinds': POS_KIND_NAMES[:8], 'pos_max_fragments': 5, 'pos_extra': {'kinds': POS_KIND_NAMES, 'max_fragments': 4},
                 'window_positions': 3, 'window_max_fragments': 3,
                 'window_alphabet_sizes': {str(l): len(window_alphabet(l, tier)) for l in (1, 2, 3)},
                 'strands': [False, True], 'dove_safe': [False, True], 'window_orders': ['as listed', 'reversed'],
@@ -372,14 +377,14 @@ def bounds(tier):
 
 
 def _pos_multisets(tier):
-    """(multiset as sorted tuple).  Main alphabet: 8 kinds up to N; extra alphabet: 11 kinds up to a smaller N,
+    """(multiset as sorted tuple).  Main alphabet: 8 kinds up to N; extra alphabet: all 13 kinds up to a smaller N,
     only the multisets that use at least one of the extra kinds (so the two families do not overlap)."""
     b = bounds(tier)
     out = []
     for n in range(1, b['pos_max_fragments'] + 1):
         out.extend(itertools.combinations_with_replacement(range(8), n))
     for n in range(1, b['pos_extra']['max_fragments'] + 1):
-        for ms in itertools.combinations_with_replacement(range(11), n):
+        for ms in itertools.combinations_with_replacement(range(len(POS_KIND_NAMES)), n):
             if max(ms) >= 8:
                 out.append(ms)
     return out
